@@ -173,6 +173,19 @@ class MethodNF:
     def _value(self, e, env, attrs, ci, fi):
         if isinstance(e, ast.Tuple):
             return tuple(self._value(x, env, attrs, ci, fi) for x in e.elts)
+        if isinstance(e, (ast.GeneratorExp, ast.ListComp)) and len(e.generators) == 1 and not e.generators[0].ifs and \
+                isinstance(e.generators[0].target, ast.Name) and isinstance(e.generators[0].iter, (ast.Tuple, ast.List)):
+            # (f(x) for x in (a, b, c)): element-wise over a literal tuple
+            g = e.generators[0]
+            out = []
+            for item in g.iter.elts:
+                env2 = dict(env)
+                env2[g.target.id] = self._value(item, env, attrs, ci, fi)
+                out.append(self._value(e.elt, env2, attrs, ci, fi))
+            return tuple(out)
+        if isinstance(e, ast.Call) and call_name(e) in ("tuple", "list") and len(e.args) == 1 and \
+                isinstance(e.args[0], (ast.GeneratorExp, ast.ListComp)):
+            return self._value(e.args[0], env, attrs, ci, fi)
         if isinstance(e, ast.Call):
             f = e.func
             if isinstance(f, ast.Attribute) and isinstance(f.value, ast.Name) and f.value.id == "self":
